@@ -533,3 +533,49 @@ class ParseFilterArg(Contract):
 
 
 CONTRACTS += [ParseSingle(), ParseSimple(), ParseFilterArg()]
+
+
+class ParseFilter(Contract):
+    """parse_filter: a string is cut at white space only and handed to parse_simple; a mapping yields its items; any other iterable its elements"""
+    target = f"{FP}.parse_filter"
+    properties = ("C07",)
+
+    def cases(self):
+        return [{"filter": f} for f in ("plain", "backslash", "quotes", "json", "tabs", "mapping", "pairs", "number")]
+
+    def make_ctx(self, case):
+        ctx = super().make_ctx(case)
+        ctx.ghost["calls"] = []
+
+        def ps(interp, b):
+            ctx.ghost["calls"].append(b["tokens"])
+            return [("parsed", tuple(b["tokens"]) if isinstance(b["tokens"], (list, tuple)) else b["tokens"])]
+        ctx.callee_contracts[f"{FP}.parse_simple"] = ps
+        return ctx
+
+    VALUES = {"plain": "a 1 b.c x", "backslash": r"c /^\d$/ d \x", "quotes": "k 'x y\" z", "json": 'a {"$lt":3} b [1,2]', "tabs": "k\tv  w\n", "mapping": {"a": 1, "b": {"$gt": 2}},
+              "pairs": [("a", 1), ("b", 2)], "number": 3}
+
+    def setup(self, interp, case):
+        v = self.VALUES[case["filter"]]
+        interp.ctx.ghost["yielded"] = []
+        return [v], {}, {"v": v}
+
+    def yield_hook(self, interp, case, pre):
+        return lambda x: interp.ctx.ghost["yielded"].append(x)
+
+    def post(self, interp, case, pre, outcome):
+        ex, g, v = interp.ex, interp.ctx.ghost, pre["v"]
+        ys = g["yielded"]
+        if isinstance(v, str):
+            ok = outcome[0] == "return" and len(g["calls"]) == 1 and list(g["calls"][0]) == v.split() and ys == [("parsed", tuple(v.split()))]
+            ex.oblige(self.oname("ensures:a_string_is_cut_at_white_space_only_(no_quoting,_no_escapes)_and_parsed_as_command-line_tokens"), z3.BoolVal(bool(ok)), note=repr((g["calls"], ys))[:200])
+        elif isinstance(v, dict):
+            ex.oblige(self.oname("ensures:a_mapping_yields_its_items"), z3.BoolVal(outcome[0] == "return" and ys == list(v.items()) and not g["calls"]), note=repr(ys)[:200])
+        elif isinstance(v, list):
+            ex.oblige(self.oname("ensures:a_sequence_of_pairs_is_passed_through"), z3.BoolVal(outcome[0] == "return" and ys == v and not g["calls"]), note=repr(ys)[:200])
+        else:
+            ex.oblige(self.oname("raises:ValueError_for_anything_that_is_not_iterable"), z3.BoolVal(outcome[0] == "raise" and isinstance(outcome[1], ValueError) and not ys), note=repr(outcome)[:200])
+
+
+CONTRACTS += [ParseFilter()]
